@@ -863,10 +863,14 @@ def check_reader(path, label, ctx, reader_terms, align_terms, kept):
     from partitura.io.importmatch import load_matchfile, alignment_from_matchfile
 
     raw = read_raw(path)
-    with warnings.catch_warnings():
-        warnings.simplefilter("ignore")
-        mf = load_matchfile(path)
-        al = alignment_from_matchfile(mf)
+    try:
+        with warnings.catch_warnings():
+            warnings.simplefilter("ignore")
+            mf = load_matchfile(path)
+            al = alignment_from_matchfile(mf)
+    except Exception as e:  # reading a file with duplicated / conflicting lines must not fail
+        ctx.evaluations += 1
+        return ["load_matchfile raises %s: %s" % (type(e).__name__, str(e)[:200])], raw, raw
     got = [c for c in (classify(ln) for ln in mf.lines) if c is not None]
     exp = resolve_spec(raw)
     bad = []
@@ -1158,7 +1162,7 @@ def run(ctx):
     ctx.matchers["C08-K1"] = k1_matcher
     ok, why = ctx.coq_props(expect_min=29)
     quick = ctx.tier == "quick"
-    ncases = 330 if quick else 4000
+    ncases = 280 if quick else 4000
     work = ctx.work
     n_viol = 0
     exp_terms, imp_terms, pf_terms, pd_terms, rd_terms, al_terms = [], [], [], [], [], []
@@ -1315,7 +1319,7 @@ def run(ctx):
                 if pterm is not None and (not quick or len(pterm) < 150000):
                     pd_terms.append(pterm)
                     pd_cases.append("fixture:%s:%d:%d" % (fn, ppq, mpq))
-                if text_lines and (ppq, mpq) == clocks[0]:
+                if text_lines and (ppq, mpq) == clocks[0] and (not quick or len(text_lines) < 1000):
                     p2 = os.path.join(work, "fxw.match")
                     with open(p2, "w") as f:
                         f.write("\n".join(text_lines) + "\n")
@@ -1328,11 +1332,16 @@ def run(ctx):
             ctx.violation("proof obligations of Props/C08.v no longer check: " + why, {"theorem_or_build": why}, no_input=True)
         return
     # correspondence
-    cap = 1500 if quick else 15000
-    if len(pf_terms) > cap:  # evenly spaced sample of the note terms (exact dyadic rationals are large literals)
-        step = len(pf_terms) / float(cap)
+    def thin(terms, cases, cap):  # evenly spaced sample (exact dyadic rationals are large literals, slow to parse)
+        if len(terms) <= cap:
+            return terms, cases
+        step = len(terms) / float(cap)
         idx = sorted({int(k * step) for k in range(cap)})
-        pf_terms, pf_cases = [pf_terms[k] for k in idx], [pf_cases[k] for k in idx]
+        return [terms[k] for k in idx], [cases[k] for k in idx]
+    exp_terms, exp_cases = thin(exp_terms, exp_cases, 400 if quick else 8000)
+    imp_terms, imp_cases = thin(imp_terms, imp_cases, 400 if quick else 8000)
+    pf_terms, pf_cases = thin(pf_terms, pf_cases, 1200 if quick else 15000)
+    pd_terms, pd_cases = thin(pd_terms, pd_cases, 200 if quick else 4000)
     for name, terms, cases, checker, what in (
             ("export", exp_terms, exp_cases, "chk_case_export", "model encode_pos/enc_dur = measure:beat, offset, duration written by matchfile_from_alignment (every leg; parts built by the generator and parts loaded from a match file)"),
             ("import", imp_terms, imp_cases, "chk_import", "model divisions/bar times/decode_divs/decode_dur = divisions, onsets and durations of the part loaded by part_from_matchfile (every leg)"),
